@@ -37,40 +37,45 @@ theorem cfg_facts (c : Cfg) (k : Kind) (ha : accepted c = true) (hk : kindOf c =
         | (intro ch; simp [blockwidthOf, pcmKeys, Cfg.fmtWord, kindOf, bytewidthOf, mk4]; try omega)
         | (simp [bytewidthOf])
 
-theorem ten2int_int2ten_pos (r : Nat) (h : 1 ≤ r) : 1 ≤ ten2int (int2ten r) := by
-  rcases Nat.lt_or_ge r (2 ^ 30) with h2 | h2
-  · rw [ten2int_int2ten_small r h h2]; omega
-  · rw [ten2int_int2ten_big r h2]; decide
+theorem ten2int_int2ten_pos (r : Nat) (h : 1 ≤ r) (h2 : r ≤ 0x7FFFFFFF) : 1 ≤ ten2int (int2ten r) := by
+  rw [ten2int_int2ten_exact r h (by omega)]; omega
 
 theorem tdiv_cast (a b : Nat) : Int.tdiv (a : Int) (b : Int) = ((a / b : Nat) : Int) := by
   rw [Int.tdiv_eq_ediv_of_nonneg (by omega)]; simp
 
-/-- `finish` on the scanner state a written image leaves behind -/
-theorem finish_ok (c : Cfg) (k : Kind) (hwf : c.wf) (hk : kindOf c = some k) (D B : Nat) (s : Sc)
+/-- `finish` on the scanner state a written image leaves behind (`T` bytes — the pad — follow the audio) -/
+theorem finish_ok (c : Cfg) (k : Kind) (hwf : c.wf) (hk : kindOf c = some k) (D B T : Nat) (hD : 0 < D) (s : Sc)
     (hs : s.ch = c.ch) (hf : s.fmt = c.fmtWord) (hss : s.sampleSize = ((bytewidthOf c.codec * 8 : Nat) : Int))
-    (hc : s.haveComm = true) (hdo : s.dataoffset = (D : Int)) (hde : s.dataend = 0) (hsr : s.sr = ten2int (int2ten c.sr)) :
-    finish (D + B) s = .ok { ch := c.ch, fmt := c.fmtWord, sr := (ten2int (int2ten c.sr)).toNat, frames := B / c.bw } := by
+    (hc : s.haveComm = true) (hdo : s.dataoffset = (D : Int))
+    (hde : s.dataend = if T > 0 then ((D + B : Nat) : Int) else 0) (hsr : s.sr = ten2int (int2ten c.sr)) :
+    finish (D + B + T) s = .ok { ch := c.ch, fmt := c.fmtWord, sr := (ten2int (int2ten c.sr)).toNat, frames := B / c.bw } := by
   obtain ⟨ha, hch1, hch2, hsr1, hsr2⟩ := hwf
   obtain ⟨_, _, fB, fbw, _⟩ := cfg_facts c k ha hk
-  have hpos := ten2int_int2ten_pos c.sr hsr1
+  have hpos := ten2int_int2ten_pos c.sr hsr1 hsr2
   unfold finish
   have g1 : ¬ (c.ch < 1 ∨ (!true) = true) := by simp; omega
-  simp only [hs, hc, g1, if_false, hf, hss, fB c.ch, hdo, hde, hsr]
+  simp only [hs, hc, g1, if_false, hf, hss, fB c.ch, hdo, hsr]
   have hbwpos : 0 < bytewidthOf c.codec * c.ch := Nat.mul_pos fbw (by omega)
-  have g2 : (((D + B : Nat) : Int) > (D : Int)) ∨ B = 0 := by omega
-  have g3 : ¬ ((0 : Int) > 0) := by decide
   have g4 : (((bytewidthOf c.codec * c.ch : Nat) : Int) > 0) := by omega
-  have hdl : (if ((D + B : Nat) : Int) > (D : Int) then (if (0 : Int) > 0 then (0 : Int) - (D : Int) else ((D + B : Nat) : Int) - (D : Int)) else 0) = (B : Int) := by
-    by_cases h : ((D + B : Nat) : Int) > (D : Int)
-    · simp only [h, g3, if_true, if_false]; omega
-    · simp only [h, if_false]; omega
+  have hdl : (if ((D + B + T : Nat) : Int) > (D : Int) then (if s.dataend > 0 then s.dataend - (D : Int) else ((D + B + T : Nat) : Int) - (D : Int)) else 0) = (B : Int) := by
+    rw [hde]
+    by_cases hT : T > 0
+    · have h1 : ((D + B + T : Nat) : Int) > (D : Int) := by omega
+      have h2 : ((D + B : Nat) : Int) > 0 := by omega
+      simp only [hT, h1, h2, if_true]; omega
+    · have hT0 : T = 0 := by omega
+      subst hT0
+      have g3 : ¬ ((0 : Int) > 0) := by decide
+      simp only [Nat.lt_irrefl, if_false, g3, Nat.add_zero]
+      by_cases h : ((D + B : Nat) : Int) > (D : Int)
+      · simp only [h, if_true]; omega
+      · simp only [h, if_false]; omega
   simp only [hdl, g4, if_true, tdiv_cast]
   have n1 : ¬ ten2int (int2ten c.sr) < 1 := by omega
   have n2 : ¬ ((B / (bytewidthOf c.codec * c.ch) : Nat) : Int) < 0 := Int.not_lt.mpr (Int.natCast_nonneg _)
   have n3 : ¬ (B : Int) < 0 := by omega
   have n4 : ¬ (D : Int) < 0 := by omega
   simp only [n1, n2, n3, n4, or_false, if_false, Int.toNat_natCast, Cfg.bw]
-
 
 theorem mk4_length_FORM : (mk4 "FORM").length = 4 := by decide
 theorem mk4_length_AIFF : (mk4 "AIFF").length = 4 := by decide
@@ -121,12 +126,12 @@ theorem step_peak_ex (bs : List Byte) (s : Sc) (body rest : List Byte)
       s'.haveComm = true ∧ s'.ch = s.ch ∧ s'.sr = s.sr ∧ s'.fmt = s.fmt ∧ s'.sampleSize = s.sampleSize ∧ s'.dataend = s.dataend :=
   ⟨_, step_peak bs s body rest hd hb hch hcomm hlen hc hu, by first | rfl | (simp only []; omega), by first | rfl | (simp only []; omega), rfl, by simp only [hcomm], rfl, rfl, rfl, rfl, rfl⟩
 
-theorem step_ssnd_ex (bs : List Byte) (s : Sc) (B : Nat) (body : List Byte)
-    (hd : bs.drop s.pos = mk4 "SSND" ++ (be32 ((B : Int) + 8) ++ (be32 0 ++ (be32 0 ++ body))))
-    (hB : body.length = B) (hB32 : B + 8 < 2 ^ 32) (hc : s.csize % 2 = 0) (hu : s.used ≤ cacheLimit) (he : s.dataend = 0) :
+theorem step_ssnd_ex (bs : List Byte) (s : Sc) (B : Nat) (body tl : List Byte)
+    (hd : bs.drop s.pos = mk4 "SSND" ++ (be32 ((B : Int) + 8) ++ (be32 0 ++ (be32 0 ++ (body ++ tl)))))
+    (hB : body.length = B) (htl : tl.length ≤ 8) (hB32 : B + 8 < 2 ^ 32) (hc : s.csize % 2 = 0) (hu : s.used ≤ cacheLimit) (he : s.dataend = 0) :
     ∃ s', step bs s = .stop s' ∧ s'.haveComm = s.haveComm ∧ s'.ch = s.ch ∧ s'.sr = s.sr ∧ s'.fmt = s.fmt ∧ s'.sampleSize = s.sampleSize ∧
-      s'.dataoffset = ((s.pos + 16 : Nat) : Int) ∧ s'.dataend = 0 :=
-  ⟨_, (step_ssnd bs s B body hd hB hB32 hc hu he).2, rfl, rfl, rfl, rfl, rfl, rfl, rfl⟩
+      s'.dataoffset = ((s.pos + 16 : Nat) : Int) ∧ s'.dataend = (if tl.length > 0 then ((s.pos + 16 + B : Nat) : Int) else 0) :=
+  ⟨_, (step_ssnd bs s B body tl hd hB htl hB32 hc hu he).2, rfl, rfl, rfl, rfl, rfl, rfl, rfl⟩
 
 /-- the end of `parse` once the chunk walk is known -/
 theorem parse_of_walk (bs : List Byte) (rest : List Byte) (fl : Int) (ty : List Byte) (hty : ty = mk4 "AIFF" ∨ ty = mk4 "AIFC")
@@ -149,10 +154,10 @@ theorem parse_of_walk (bs : List Byte) (rest : List Byte) (fl : Int) (ty : List 
 
 /-- plain AIFF (PCM with the default byte order): FORM, COMM (18), SSND -/
 theorem parse_image_aiff (c : Cfg) (k : Kind) (hwf : c.wf) (hk : kindOf c = some k) (haifc : k.aifc = false)
-    (frames : Int) (fl : Int) (body : List Byte) (hB : body.length + 8 < 2 ^ 32) :
+    (frames : Int) (fl : Int) (body tl : List Byte) (htl : tl.length ≤ 8) (hB : body.length + 8 < 2 ^ 32) :
     parse (mk4 "FORM" ++ (be32 fl ++ (mk4 "AIFF" ++ (mk4 "COMM" ++ (be32 18 ++ (be16 c.ch ++ (be32 frames ++
       (be16 ((bytewidthOf c.codec * 8 : Nat) : Int) ++ (int2ten c.sr ++
-      (mk4 "SSND" ++ (be32 ((body.length : Int) + 8) ++ (be32 0 ++ (be32 0 ++ body))))))))))))) =
+      (mk4 "SSND" ++ (be32 ((body.length : Int) + 8) ++ (be32 0 ++ (be32 0 ++ (body ++ tl)))))))))))))) =
       .ok { ch := c.ch, fmt := c.fmtWord, sr := (ten2int (int2ten c.sr)).toNat, frames := body.length / c.bw } := by
   have hwf' := hwf
   obtain ⟨ha, hch1, hch2, hsr1, hsr2⟩ := hwf
@@ -160,13 +165,13 @@ theorem parse_image_aiff (c : Cfg) (k : Kind) (hwf : c.wf) (hk : kindOf c = some
   obtain ⟨hfmt, _⟩ := fA haifc
   obtain ⟨bs, hbs⟩ : ∃ bs, bs = (mk4 "FORM" ++ (be32 fl ++ (mk4 "AIFF" ++ (mk4 "COMM" ++ (be32 18 ++ (be16 c.ch ++ (be32 frames ++
       (be16 ((bytewidthOf c.codec * 8 : Nat) : Int) ++ (int2ten c.sr ++
-      (mk4 "SSND" ++ (be32 ((body.length : Int) + 8) ++ (be32 0 ++ (be32 0 ++ body))))))))))))) := ⟨_, rfl⟩
+      (mk4 "SSND" ++ (be32 ((body.length : Int) + 8) ++ (be32 0 ++ (be32 0 ++ (body ++ tl)))))))))))))) := ⟨_, rfl⟩
   rw [← hbs]
   have d0 := drop_zero_eq hbs.symm
   have d1 := drop_at d0 mk4_length_FORM
   have d2 := drop_at d1 (be32_length _)
   have d3 := drop_at d2 mk4_length_AIFF
-  have hlen : bs.length = 54 + body.length := by
+  have hlen : bs.length = 54 + body.length + tl.length := by
     rw [hbs]; simp [mk4_length_FORM, mk4_length_AIFF, mk4_length_COMM, mk4_length_SSND, be32_length, be16_length, int2ten_length]; omega
   obtain ⟨s1, st1, p1, u1, cs1, hc1, ch1, sr1, f1, ss1, de1⟩ :=
     step_comm18_ex bs { pos := 12 } c.ch (bytewidthOf c.codec * 8) frames (int2ten c.sr) _ c.fmtWord _ d3 (int2ten_length _)
@@ -180,23 +185,23 @@ theorem parse_image_aiff (c : Cfg) (k : Kind) (hwf : c.wf) (hk : kindOf c = some
   have p1' : s1.pos = 38 := p1
   have hs1d := drop_cast (q := s1.pos) d9 (by rw [p1'])
   obtain ⟨s2, st2, hc2, ch2, sr2, f2, ss2, do2, de2⟩ :=
-    step_ssnd_ex bs s1 body.length body hs1d rfl hB (by rw [cs1]) (by rw [u1]; decide) (by rw [de1])
+    step_ssnd_ex bs s1 body.length body tl hs1d rfl htl hB (by rw [cs1]) (by rw [u1]; decide) (by rw [de1])
   have hw : walk bs bs.length { pos := 12 } = some (some s2) := by
-    obtain ⟨n, hn⟩ : ∃ n, bs.length = n + 1 + 1 := ⟨52 + body.length, by omega⟩
+    obtain ⟨n, hn⟩ : ∃ n, bs.length = n + 1 + 1 := ⟨52 + body.length + tl.length, by omega⟩
     rw [hn, walk_succ, st1]
     simp only [walk_succ, st2]
   rw [parse_of_walk bs _ fl (mk4 "AIFF") (Or.inl rfl) hbs (by omega) s2 hw, hlen]
-  exact finish_ok c k hwf' hk 54 body.length s2 (by rw [ch2, ch1]) (by rw [f2, f1]) (by rw [ss2, ss1]) (by rw [hc2, hc1])
-    (by rw [do2, p1']) de2 (by rw [sr2, sr1])
+  exact finish_ok c k hwf' hk 54 body.length tl.length (by decide) s2 (by rw [ch2, ch1]) (by rw [f2, f1]) (by rw [ss2, ss1]) (by rw [hc2, hc1])
+    (by rw [do2, p1']) (by rw [de2, p1']) (by rw [sr2, sr1])
 
 
 /-- AIFF-C without PEAK: FORM, FVER, COMM (24), SSND -/
 theorem parse_image_aifc (c : Cfg) (k : Kind) (hwf : c.wf) (hk : kindOf c = some k) (haifc : k.aifc = true)
-    (frames : Int) (fl : Int) (body : List Byte) (hB : body.length + 8 < 2 ^ 32) :
+    (frames : Int) (fl : Int) (body tl : List Byte) (htl : tl.length ≤ 8) (hB : body.length + 8 < 2 ^ 32) :
     parse (mk4 "FORM" ++ (be32 fl ++ (mk4 "AIFC" ++ (mk4 "FVER" ++ (be32 4 ++ (be32 0xA2805140 ++
       (mk4 "COMM" ++ (be32 24 ++ (be16 c.ch ++ (be32 frames ++
       (be16 ((bytewidthOf c.codec * 8 : Nat) : Int) ++ (int2ten c.sr ++ (k.enc ++ ([0] ++ ([0] ++
-      (mk4 "SSND" ++ (be32 ((body.length : Int) + 8) ++ (be32 0 ++ (be32 0 ++ body))))))))))))))))))) =
+      (mk4 "SSND" ++ (be32 ((body.length : Int) + 8) ++ (be32 0 ++ (be32 0 ++ (body ++ tl)))))))))))))))))))) =
       .ok { ch := c.ch, fmt := c.fmtWord, sr := (ten2int (int2ten c.sr)).toNat, frames := body.length / c.bw } := by
   have hwf' := hwf
   obtain ⟨ha, hch1, hch2, hsr1, hsr2⟩ := hwf
@@ -205,13 +210,13 @@ theorem parse_image_aifc (c : Cfg) (k : Kind) (hwf : c.wf) (hk : kindOf c = some
   obtain ⟨bs, hbs⟩ : ∃ bs, bs = (mk4 "FORM" ++ (be32 fl ++ (mk4 "AIFC" ++ (mk4 "FVER" ++ (be32 4 ++ (be32 0xA2805140 ++
       (mk4 "COMM" ++ (be32 24 ++ (be16 c.ch ++ (be32 frames ++
       (be16 ((bytewidthOf c.codec * 8 : Nat) : Int) ++ (int2ten c.sr ++ (k.enc ++ ([0] ++ ([0] ++
-      (mk4 "SSND" ++ (be32 ((body.length : Int) + 8) ++ (be32 0 ++ (be32 0 ++ body))))))))))))))))))) := ⟨_, rfl⟩
+      (mk4 "SSND" ++ (be32 ((body.length : Int) + 8) ++ (be32 0 ++ (be32 0 ++ (body ++ tl)))))))))))))))))))) := ⟨_, rfl⟩
   rw [← hbs]
   have d0 := drop_zero_eq hbs.symm
   have d1 := drop_at d0 mk4_length_FORM
   have d2 := drop_at d1 (be32_length _)
   have d3 := drop_at d2 mk4_length_AIFC
-  have hlen : bs.length = 72 + body.length := by
+  have hlen : bs.length = 72 + body.length + tl.length := by
     rw [hbs]; simp [mk4_length_FORM, mk4_length_AIFC, mk4_length_FVER, mk4_length_COMM, mk4_length_SSND, be32_length, be16_length, int2ten_length, henc]; omega
   obtain ⟨s1, st1, p1, u1, cs1, de1⟩ := step_fver_ex bs { pos := 12 } _ d3 (by show 12 + 12 + 8 < bs.length; omega) rfl (by decide)
   have d4 := drop_at d3 mk4_length_FVER
@@ -234,24 +239,24 @@ theorem parse_image_aifc (c : Cfg) (k : Kind) (hwf : c.wf) (hk : kindOf c = some
   have p2' : s2.pos = 56 := by rw [p2, p1']
   have hs2d := drop_cast (q := s2.pos) e9 (by rw [p2'])
   obtain ⟨s3, st3, hc3, ch3, sr3, f3, ss3, do3, de3⟩ :=
-    step_ssnd_ex bs s2 body.length body hs2d rfl hB (by rw [cs2]) (by rw [u2, u1]; decide) (by rw [de2, de1])
+    step_ssnd_ex bs s2 body.length body tl hs2d rfl htl hB (by rw [cs2]) (by rw [u2, u1]; decide) (by rw [de2, de1])
   have hw : walk bs bs.length { pos := 12 } = some (some s3) := by
-    obtain ⟨n, hn⟩ : ∃ n, bs.length = n + 1 + 1 + 1 := ⟨69 + body.length, by omega⟩
+    obtain ⟨n, hn⟩ : ∃ n, bs.length = n + 1 + 1 + 1 := ⟨69 + body.length + tl.length, by omega⟩
     rw [hn, walk_succ, st1]
     simp only [walk_succ, st2, st3]
   rw [parse_of_walk bs _ fl (mk4 "AIFC") (Or.inr rfl) hbs (by omega) s3 hw, hlen]
-  exact finish_ok c k hwf' hk 72 body.length s3 (by rw [ch3, ch2]) (by rw [f3, f2]) (by rw [ss3, ss2]) (by rw [hc3, hc2])
-    (by rw [do3, p2']) de3 (by rw [sr3, sr2])
+  exact finish_ok c k hwf' hk 72 body.length tl.length (by decide) s3 (by rw [ch3, ch2]) (by rw [f3, f2]) (by rw [ss3, ss2]) (by rw [hc3, hc2])
+    (by rw [do3, p2']) (by rw [de3, p2']) (by rw [sr3, sr2])
 
 /-- AIFF-C with a PEAK chunk (FLOAT / DOUBLE written in SFM_WRITE): FORM, FVER, COMM (24), PEAK, SSND;
     `pk` is the PEAK body (version, time stamp, one (value, position) pair per channel) -/
 theorem parse_image_peak (c : Cfg) (k : Kind) (hwf : c.wf) (hk : kindOf c = some k) (haifc : k.aifc = true)
-    (frames : Int) (fl : Int) (pk body : List Byte) (hpk : pk.length = 8 + 8 * c.ch) (hB : body.length + 8 < 2 ^ 32) :
+    (frames : Int) (fl : Int) (pk body tl : List Byte) (hpk : pk.length = 8 + 8 * c.ch) (htl : tl.length ≤ 8) (hB : body.length + 8 < 2 ^ 32) :
     parse (mk4 "FORM" ++ (be32 fl ++ (mk4 "AIFC" ++ (mk4 "FVER" ++ (be32 4 ++ (be32 0xA2805140 ++
       (mk4 "COMM" ++ (be32 24 ++ (be16 c.ch ++ (be32 frames ++
       (be16 ((bytewidthOf c.codec * 8 : Nat) : Int) ++ (int2ten c.sr ++ (k.enc ++ ([0] ++ ([0] ++
       (mk4 "PEAK" ++ (be32 ((8 + 8 * c.ch : Nat) : Int) ++ (pk ++
-      (mk4 "SSND" ++ (be32 ((body.length : Int) + 8) ++ (be32 0 ++ (be32 0 ++ body)))))))))))))))))))))) =
+      (mk4 "SSND" ++ (be32 ((body.length : Int) + 8) ++ (be32 0 ++ (be32 0 ++ (body ++ tl))))))))))))))))))))))) =
       .ok { ch := c.ch, fmt := c.fmtWord, sr := (ten2int (int2ten c.sr)).toNat, frames := body.length / c.bw } := by
   have hwf' := hwf
   obtain ⟨ha, hch1, hch2, hsr1, hsr2⟩ := hwf
@@ -261,13 +266,13 @@ theorem parse_image_peak (c : Cfg) (k : Kind) (hwf : c.wf) (hk : kindOf c = some
       (mk4 "COMM" ++ (be32 24 ++ (be16 c.ch ++ (be32 frames ++
       (be16 ((bytewidthOf c.codec * 8 : Nat) : Int) ++ (int2ten c.sr ++ (k.enc ++ ([0] ++ ([0] ++
       (mk4 "PEAK" ++ (be32 ((8 + 8 * c.ch : Nat) : Int) ++ (pk ++
-      (mk4 "SSND" ++ (be32 ((body.length : Int) + 8) ++ (be32 0 ++ (be32 0 ++ body)))))))))))))))))))))) := ⟨_, rfl⟩
+      (mk4 "SSND" ++ (be32 ((body.length : Int) + 8) ++ (be32 0 ++ (be32 0 ++ (body ++ tl))))))))))))))))))))))) := ⟨_, rfl⟩
   rw [← hbs]
   have d0 := drop_zero_eq hbs.symm
   have d1 := drop_at d0 mk4_length_FORM
   have d2 := drop_at d1 (be32_length _)
   have d3 := drop_at d2 mk4_length_AIFC
-  have hlen : bs.length = 88 + 8 * c.ch + body.length := by
+  have hlen : bs.length = 88 + 8 * c.ch + body.length + tl.length := by
     rw [hbs]; simp [mk4_length_FORM, mk4_length_AIFC, mk4_length_FVER, mk4_length_COMM, mk4_length_SSND, mk4_length_PEAK, be32_length, be16_length, int2ten_length, henc, hpk]; omega
   obtain ⟨s1, st1, p1, u1, cs1, de1⟩ := step_fver_ex bs { pos := 12 } _ d3 (by show 12 + 12 + 8 < bs.length; omega) rfl (by decide)
   have d4 := drop_at d3 mk4_length_FVER
@@ -300,14 +305,14 @@ theorem parse_image_peak (c : Cfg) (k : Kind) (hwf : c.wf) (hk : kindOf c = some
   have p3' : s3.pos = 72 + 8 * c.ch := by rw [p3, p2']
   have hs3d := drop_cast (q := s3.pos) g3 (by rw [p3', p2']; omega)
   obtain ⟨s4, st4, hc4, ch4, sr4, f4, ss4, do4, de4⟩ :=
-    step_ssnd_ex bs s3 body.length body hs3d rfl hB (by rw [cs3]; omega) (by rw [u3, u2, u1]; simp only [cacheLimit]; omega)
+    step_ssnd_ex bs s3 body.length body tl hs3d rfl htl hB (by rw [cs3]; omega) (by rw [u3, u2, u1]; simp only [cacheLimit]; omega)
       (by rw [de3, de2, de1])
   have hw : walk bs bs.length { pos := 12 } = some (some s4) := by
-    obtain ⟨n, hn⟩ : ∃ n, bs.length = n + 1 + 1 + 1 + 1 := ⟨84 + 8 * c.ch + body.length, by omega⟩
+    obtain ⟨n, hn⟩ : ∃ n, bs.length = n + 1 + 1 + 1 + 1 := ⟨84 + 8 * c.ch + body.length + tl.length, by omega⟩
     rw [hn, walk_succ, st1]
     simp only [walk_succ, st2, st3, st4]
   rw [parse_of_walk bs _ fl (mk4 "AIFC") (Or.inr rfl) hbs (by omega) s4 hw, hlen]
-  exact finish_ok c k hwf' hk (88 + 8 * c.ch) body.length s4 (by rw [ch4, ch3, ch2]) (by rw [f4, f3, f2]) (by rw [ss4, ss3, ss2])
-    (by rw [hc4, hc3]) (by rw [do4, p3']; omega) de4 (by rw [sr4, sr3, sr2])
+  exact finish_ok c k hwf' hk (88 + 8 * c.ch) body.length tl.length (by omega) s4 (by rw [ch4, ch3, ch2]) (by rw [f4, f3, f2]) (by rw [ss4, ss3, ss2])
+    (by rw [hc4, hc3]) (by rw [do4, p3']; omega) (by rw [de4, p3']; split <;> simp <;> omega) (by rw [sr4, sr3, sr2])
 
 end Sf.Aiff
